@@ -75,3 +75,10 @@ PROPS['C13'] = dict(
     stages=[dict(name='addr', bin='vaddr_race', shards=shards(4, 12), par=12, crash_is_violation=True, crash_key='addr:crash')],
     need_counters=['attaches', 'auto_assigned', 'static_assigned', 'delivery_probes', 'binds', 'binds_conflicting', 'binds_ephemeral', 'probes_delivered', 'closes'],
 )
+
+for _p in ('C02', 'C03'):
+    PROPS[_p] = dict(
+        level='exploration', builds={'vnat': dict(pkg='./cmd/vnat', overlay='shim')},
+        stages=[dict(name='natmodel', bin='vnat', args=['-prop', _p], shards=shards(4, 12), par=12, crash_is_violation=True, crash_key='nat:crash')],
+        need_counters=['outbound', 'inbound', 'mapping_reused', 'mapping_expired_then_recreated', 'inbound_admitted', 'inbound_must_refuse_no-permission', 'inbound_must_refuse_expired', 'exhaustion_histories', '1to1_in', '1to1_out'],
+    )
